@@ -608,3 +608,20 @@ pub fn real_data(g: &dyn Graph) -> std::collections::BTreeMap<usize, Option<Vec<
         .map(|x| (x.id, if x.persistence == 0 { None } else { Some(x.data.clone()) }))
         .collect()
 }
+
+/// Do the kids() of every present vertex agree (as a set) with the edges the vertex really stores
+/// (hook)? If they do not, the defect is in kids()/bind() (C03's subject) and the monitors that
+/// take kids() as their reference for "the edges of the graph" (C13, C18, C20) have no reference:
+/// they skip that state and count it.
+pub fn kids_match_stored_edges(g: &dyn Graph) -> bool {
+    let snap = g.snapshot();
+    snap.slots.iter().filter(|x| x.branch != 0).all(|x| match guarded(|| g.kids(x.id)) {
+        Ok(mut k) => {
+            let mut e = x.edges.clone();
+            k.sort();
+            e.sort();
+            k == e
+        }
+        Err(_) => false,
+    })
+}
